@@ -27,6 +27,20 @@ func replayOpenAPI(eng *Engine) string {
 	return runKitReplay(eng, replayOpenAPISrc, "zz_govc_openapi_test.go", "TestGovcOpenAPIReplay", "OpenAPI export of documents on the real code (package kit):")
 }
 
+//go:embed replay_usedtypes_test.go.tmpl
+var replayUsedTypesSrc string
+
+// usedTypesChecks: BOUNDED check of the real ExchangeContent.ToUsedUserTypes under C05 (see the template).
+func (e *Engine) usedTypesChecks(id string) []fdResult {
+	if id != "C05" {
+		return nil
+	}
+	out := runPkgReplay(e, "catalog", replayUsedTypesSrc, "zz_govc_usedtypes_test.go", "TestGovcUsedUserTypes", "mixed shortcuts on the real ToUsedUserTypes:")
+	return []fdResult{{Name: "(*catalog.ExchangeContent).ToUsedUserTypes/bounded/used-user-types#1", Props: []string{id},
+		Goal: "BOUNDED (49 shortcut values: 4 names x 6 spellings of the bar x 2 paddings): an inherited mixed shortcut records exactly the user type names it refers to (bounded sample, not a proof)",
+		OK:   strings.Contains(out, "DONE tried=") && !strings.Contains(out, "REPRODUCED input"), Detail: out}}
+}
+
 //go:embed replay_quoted_test.go.tmpl
 var replayQuotedSrc string
 
